@@ -306,8 +306,8 @@ def _check_cli_run_inner(run):
     return "cli/%s/%d_opts" % (fmt, min(len(active), 3))
 
 
-def _mk_cli_case(fmt, data, relation, align_mode, correct_scale, n_to_align, downsample, mf, tmd, toff, crop, project, unit):
-    opts = {"relation": relation, "align": align_mode == "align", "align_origin": align_mode == "origin", "correct_scale": correct_scale,
+def _mk_cli_case(fmt, data, relation, align_mode, correct_scale, n_to_align, downsample, mf, tmd, toff, crop, project, unit, plot=None):
+    opts = {"plot": plot, "relation": relation, "align": align_mode == "align", "align_origin": align_mode == "origin", "correct_scale": correct_scale,
             "n_to_align": n_to_align if (align_mode == "align" or correct_scale) else -1, "downsample": downsample, "motion_filter": mf,
             "t_max_diff": tmd, "t_offset": toff, "project": project, "change_unit": None}
     n = data["n"]
@@ -345,14 +345,20 @@ _st_cli_opts = (
     st.sampled_from(["none", "align", "origin"]), st.booleans(), st.sampled_from([-1, -1, 3, 5, 10]), st.sampled_from([None, None, 3, 10, 1000, "n", "n+2"]),
     st.sampled_from([None, None, [0.1, 5.0], [1.0, 0.5], [0.0, 0.0]]), st.sampled_from([0.01, 0.01, 0.005, 0.02]),
     st.sampled_from([0.0, 0.0, 0.5, -2.25]), st.one_of(st.none(), st.tuples(st.integers(0, 40), st.integers(0, 40), st.booleans(), st.booleans())),
-    st.sampled_from([None, None, "xy", "xz", "yz"]), st.sampled_from([None, None, "mm", "cm", "km"]))
+    st.sampled_from([None, None, "xy", "xz", "yz"]), st.sampled_from([None, None, "mm", "cm", "km"]),
+    st.one_of(st.none(), st.none(), st.none(), st.none(), st.none(), st.fixed_dictionaries({
+        "x": st.sampled_from(["index", "seconds", "distances"]), "mode": st.sampled_from(["xy", "xyz", "zx"]),
+        "pct": st.sampled_from([None, 50, 90, 100]), "cmin": st.sampled_from([None, 0.0])})))
 
 
 @st.composite
-def st_cli(draw):
+def st_cli(draw, force_plot=False):
     fmt = draw(st.sampled_from(["tum", "tum", "euroc", "kitti"]))
     data = draw(st_data)
     case = _mk_cli_case(fmt, data, *[draw(x) for x in _st_cli_opts])
+    if force_plot and not case["opts"].get("plot"):
+        case["opts"]["plot"] = {"x": draw(st.sampled_from(["index", "seconds", "distances"])), "mode": draw(st.sampled_from(["xy", "xyz"])),
+                                "pct": draw(st.sampled_from([None, 50, 90])), "cmin": None}
     # one case in four evaluates the same files again (same process) with other options
     k = draw(st.sampled_from([0, 0, 0, 1, 2])) if draw(st.booleans()) else 0
     if k:
@@ -361,4 +367,4 @@ def st_cli(draw):
 
 
 SUBS.append(Sub("cli", sub_cli, st_cli(), 800, 30000, nontrivial=lambda c: any(c["opts"].get(k) for k in (
-    "align", "correct_scale", "align_origin", "downsample", "motion_filter", "t_start", "t_end", "project", "change_unit", "t_offset")), shards_quick=8))
+    "align", "correct_scale", "align_origin", "downsample", "motion_filter", "t_start", "t_end", "project", "change_unit", "t_offset", "plot")), shards_quick=8))
